@@ -31,13 +31,53 @@ end XV.Snapshot
 namespace XV.Snapshot
 open XV.Chain
 
-/-- **a snapshot after a walk.** Under the hypotheses of C01 `walk_canonical` (block tree with parent links strictly
+/-- **a snapshot after a walk**, for any height table that gives every transaction of the destination chain the height
+of its block on that chain. Under the hypotheses of C01 `walk_canonical` (block tree with parent links strictly
 down in height, base state `g` well-formed, the chain of the old tip and the old pool valid, the state refining
-"canonical state of the old tip + pool"), with `g` holding no keys, the destination chain valid and
-without repeated transactions: after a successful walk to `dest` — undoing any number of blocks and applying any
-number — the snapshot at any block `B` of the destination's chain (in particular at the common ancestor of the two
-branches) reads every key as the canonical state of `B` does, i.e. as the live reader did when `B` was the tip;
-`confH` = heights along the destination chain. Nothing is assumed about the transactions the walk re-submits. -/
+"canonical state of the old tip + pool"), with `g` holding no keys, the destination chain valid: after a successful
+walk to `dest` — undoing any number of blocks and applying any number — the snapshot at any block `B` of the
+destination's chain (in particular at the common ancestor of the two branches) reads every key as the canonical
+state of `B` does, i.e. as the live reader did when `B` was the tip. Nothing is assumed about the transactions the walk
+re-submits. -/
+theorem snapshot_walk_gen (e : Env) (hids : EnvIds e) (s : St) (lh : Int) (dest : Nat) (prune : Bool) (g : St)
+    (confH : Nat → Option Nat)
+    (hpl : ParentLower e) (hok : (walk e s lh dest prune).2 = true) (hinv : KVInv e g)
+    (hg : ∀ key, curVer g key = none)
+    (hchain : XV.C01.ChainValid e (ancestors e (e.blocks.length + 1) s.pointer).reverse g)
+    (hpool : XV.C01.PoolValid e s.pool (XV.C01.canon e g s.pointer))
+    (hs : TRefines s (applyPool e s.pool (XV.C01.canon e g s.pointer)))
+    (hdchain : XV.C01.ChainValid e (ancestors e (e.blocks.length + 1) dest).reverse g)
+    (hconf : ∀ b ∈ ancestors e (e.blocks.length + 1) dest, ∀ i ∈ (e.block b).txs, confH i = some (e.block b).height)
+    (B : Nat) (hB : B ∈ ancestors e (e.blocks.length + 1) dest)
+    (key : String) (fuel : Nat)
+    (hfuel : (chainTxs e (ancestors e (e.blocks.length + 1) dest).reverse).length +
+      (walk e s lh dest prune).1.pool.length + 1 ≤ fuel) :
+    snapshotGet e (walk e s lh dest prune).1 confH (e.block B).height key fuel = curVer (XV.C01.canon e g B) key := by
+  obtain ⟨w1, w2⟩ := XV.C01.walk_canonical e s lh dest prune g hpl hok hinv hchain hpool hs
+  have hP := pends_foldl e lh s.pool ({ XV.C01.canon e g dest with pool := [] } : St)
+  obtain ⟨l, p1, p2, p3⟩ := hP.run
+  have hX : curVer ({ XV.C01.canon e g dest with pool := [] } : St) =
+      curVer (replayChain e (ancestors e (e.blocks.length + 1) dest).reverse g) := rfl
+  rw [hX] at p2 p3
+  have p1' : (walk e s lh dest prune).1.pool = l := by
+    rw [w2, p1]; rfl
+  obtain ⟨l2, hsplit, hlow, hhigh⟩ := ancestors_split_at e hpl dest B hB
+  rw [hsplit] at p2 p3 hdchain hfuel
+  have hconfH : ∀ b ∈ (ancestors e (e.blocks.length + 1) B).reverse ++ l2, ∀ i ∈ (e.block b).txs,
+      confH i = some (e.block b).height := by
+    intro b hb i hi
+    rw [← hsplit] at hb
+    exact hconf b (List.mem_reverse.mp hb) i hi
+  rw [p1'] at hfuel
+  show _ = curVer (replayChain e (ancestors e (e.blocks.length + 1) B).reverse g) key
+  apply snapshot_chain_core e hids g _ l2 _ _ l _ hg (chainValid_run e _ g hdchain) hconfH hlow hhigh p1' p2
+    (funext fun k => (w1.obs.ver k).trans (congrFun p3 k)) key fuel
+  have h1 := nWrites_le e (chainTxs e l2 ++ l) key
+  rw [chainTxs_append, List.length_append] at hfuel
+  rw [List.length_append] at h1
+  omega
+
+/-- the same with `confOf` of the destination chain, which has no repeated transaction -/
 theorem snapshot_walk_core (e : Env) (hids : EnvIds e) (s : St) (lh : Int) (dest : Nat) (prune : Bool) (g : St)
     (hpl : ParentLower e) (hok : (walk e s lh dest prune).2 = true) (hinv : KVInv e g)
     (hg : ∀ key, curVer g key = none)
@@ -51,30 +91,9 @@ theorem snapshot_walk_core (e : Env) (hids : EnvIds e) (s : St) (lh : Int) (dest
     (hfuel : (chainTxs e (ancestors e (e.blocks.length + 1) dest).reverse).length +
       (walk e s lh dest prune).1.pool.length + 1 ≤ fuel) :
     snapshotGet e (walk e s lh dest prune).1 (confOf e (ancestors e (e.blocks.length + 1) dest))
-      (e.block B).height key fuel = curVer (XV.C01.canon e g B) key := by
-  obtain ⟨w1, w2⟩ := XV.C01.walk_canonical e s lh dest prune g hpl hok hinv hchain hpool hs
-  have hP := pends_foldl e lh s.pool ({ XV.C01.canon e g dest with pool := [] } : St)
-  obtain ⟨l, p1, p2, p3⟩ := hP.run
-  have hX : curVer ({ XV.C01.canon e g dest with pool := [] } : St) =
-      curVer (replayChain e (ancestors e (e.blocks.length + 1) dest).reverse g) := rfl
-  rw [hX] at p2 p3
-  have p1' : (walk e s lh dest prune).1.pool = l := by
-    rw [w2, p1]; rfl
-  obtain ⟨l2, hsplit, hlow, hhigh⟩ := ancestors_split_at e hpl dest B hB
-  rw [hsplit] at p2 p3 hdchain hfuel
-  have hconfH : ∀ b ∈ (ancestors e (e.blocks.length + 1) B).reverse ++ l2, ∀ i ∈ (e.block b).txs,
-      confOf e (ancestors e (e.blocks.length + 1) dest) i = some (e.block b).height := by
-    intro b hb i hi
-    rw [← hsplit] at hb
-    exact confOf_eq e _ honce b (List.mem_reverse.mp hb) i hi
-  rw [p1'] at hfuel
-  show _ = curVer (replayChain e (ancestors e (e.blocks.length + 1) B).reverse g) key
-  apply snapshot_chain_core e hids g _ l2 _ _ l _ hg (chainValid_run e _ g hdchain) hconfH hlow hhigh p1' p2
-    (funext fun k => (w1.obs.ver k).trans (congrFun p3 k)) key fuel
-  have h1 := nWrites_le e (chainTxs e l2 ++ l) key
-  rw [chainTxs_append, List.length_append] at hfuel
-  rw [List.length_append] at h1
-  omega
+      (e.block B).height key fuel = curVer (XV.C01.canon e g B) key :=
+  snapshot_walk_gen e hids s lh dest prune g _ hpl hok hinv hg hchain hpool hs hdchain
+    (fun b hb i hi => confOf_eq e _ honce b hb i hi) B hB key fuel hfuel
 
 end XV.Snapshot
 
